@@ -493,6 +493,7 @@ const (
 	kfDisplacement   = "rerun-displaces-pods-from-their-in-flight-nodeclaim"
 	kfUndefinedLabel = "existing-node-undefined-label-after-notin"
 	kfAnyExcluded    = "any-returns-excluded-value"
+	kfDaemonLabel    = "daemon-overhead-ignores-labels-introduced-by-pods"
 	kfCollapse       = "contradictory-constraints-collapse-to-doesnotexist"
 )
 
@@ -693,6 +694,39 @@ func (m *mp) rerunClaim(c *kit.Ctx, claim string, podKeys []string, stage string
 // (any-returns-excluded-value, reported under C13) — ToNodeClaim resolved a custom label with Requirement.Any() to a
 // value the NodeClaim's own requirement on that key excludes.
 func (m *mp) kfRerun(nc *v1.NodeClaim, li *launchInfo, pods []sk.PodDump, firstErr string) string {
+	// C01's finding daemon-overhead-ignores-labels-introduced-by-pods seen from C04: a pod put a custom label key on the
+	// claim that the NodePool template does not define (e.g. `team NotIn [a]`), ToNodeClaim resolved it to a value, and
+	// a daemonset that selects on that key (`team Exists`) now counts on the in-flight node although the claim's
+	// daemon overhead group did not include it
+	np := &v1.NodePool{}
+	if err := m.cl.Get(m.ctx, client.ObjectKey{Name: nc.Labels[v1.NodePoolLabelKey]}, np); err == nil {
+		defined := map[string]bool{}
+		for _, r := range np.Spec.Template.Spec.Requirements {
+			defined[r.Key] = true
+		}
+		for k := range np.Spec.Template.Labels {
+			defined[k] = true
+		}
+		for k := range nc.Labels {
+			if !strings.HasPrefix(k, "example.com/") || defined[k] {
+				continue
+			}
+			for _, d := range m.daemonPods(false) {
+				for _, kv := range d.Sel {
+					if kv[0] == k {
+						return kfDaemonLabel
+					}
+				}
+				for _, t := range d.Req {
+					for _, x := range t {
+						if x.Key == k {
+							return kfDaemonLabel
+						}
+					}
+				}
+			}
+		}
+	}
 	reqs := scheduling.NewNodeSelectorRequirementsWithMinValues(nc.Spec.Requirements...)
 	for k, val := range nc.Labels {
 		if v1.WellKnownLabels.Has(k) || !reqs.Has(k) {
